@@ -34,11 +34,15 @@ pub struct ReaderPolicy {
     pub sticky_at: Option<usize>,
     /// One-shot error at the m-th read call. (Characterisation runs only.)
     pub transient_at_read: Option<u64>,
+    /// The reader was already advanced when it was wrapped: this many foreign bytes (a header that
+    /// was read before) precede the logical start of the input in the underlying device.
+    #[serde(default)]
+    pub prefix: usize,
 }
 
 impl ReaderPolicy {
     pub fn full() -> Self {
-        ReaderPolicy { chunk: Chunk::Full, eintr: Eintr::Never, cuts: vec![], sticky_at: None, transient_at_read: None }
+        ReaderPolicy { chunk: Chunk::Full, eintr: Eintr::Never, cuts: vec![], sticky_at: None, transient_at_read: None, prefix: 0 }
     }
     pub fn legal(rng: &mut Rng, len: usize, hot: &[usize]) -> Self {
         let chunk = match rng.below(10) {
@@ -68,7 +72,8 @@ impl ReaderPolicy {
         }
         cuts.sort();
         cuts.dedup();
-        ReaderPolicy { chunk, eintr, cuts, sticky_at: None, transient_at_read: None }
+        let prefix = if rng.chance(1, 2) { 0 } else { rng.range(1, 24) as usize };
+        ReaderPolicy { chunk, eintr, cuts, sticky_at: None, transient_at_read: None, prefix }
     }
     pub fn is_legal(&self) -> bool {
         self.sticky_at.is_none() && self.transient_at_read.is_none()
@@ -101,6 +106,7 @@ pub struct ReaderLog {
     pub negative_seek: bool,
     pub read_ok_after_sticky: bool,
     pub max_req: usize,
+    pub started_at: u64,
 }
 
 enum Mode {
@@ -111,20 +117,39 @@ enum Mode {
 pub struct SimReader {
     data: Rc<Vec<u8>>,
     pos: u64,
+    /// physical offset of the logical start of the input
+    base: u64,
     mode: Mode,
     sticky_at: Option<usize>,
     log: Rc<RefCell<ReaderLog>>,
 }
 
 impl SimReader {
-    pub fn new(data: Rc<Vec<u8>>, policy: ReaderPolicy, rng: Rng) -> (SimReader, Rc<RefCell<ReaderLog>>) {
-        let log = Rc::new(RefCell::new(ReaderLog::default()));
-        let sticky_at = policy.sticky_at;
-        (SimReader { data, pos: 0, mode: Mode::Gen { rng, policy, burst_left: 0 }, sticky_at, log: log.clone() }, log)
+    /// `prefix` foreign bytes (0xEE — never a token of the alphabet) precede the input in the device;
+    /// the reader is handed to chumsky positioned at the logical start. All offsets in the policy are
+    /// logical and shifted here.
+    fn physical(data: &Rc<Vec<u8>>, prefix: usize) -> Rc<Vec<u8>> {
+        if prefix == 0 {
+            data.clone()
+        } else {
+            let mut v = vec![0xEEu8; prefix];
+            v.extend_from_slice(data);
+            Rc::new(v)
+        }
     }
-    pub fn replay(data: Rc<Vec<u8>>, trace: Vec<RAct>, sticky_at: Option<usize>) -> (SimReader, Rc<RefCell<ReaderLog>>) {
+    pub fn new(data: Rc<Vec<u8>>, mut policy: ReaderPolicy, rng: Rng) -> (SimReader, Rc<RefCell<ReaderLog>>) {
         let log = Rc::new(RefCell::new(ReaderLog::default()));
-        (SimReader { data, pos: 0, mode: Mode::Replay { trace, idx: 0 }, sticky_at, log: log.clone() }, log)
+        let base = policy.prefix;
+        policy.sticky_at = policy.sticky_at.map(|k| k + base);
+        for c in policy.cuts.iter_mut() {
+            *c += base;
+        }
+        let sticky_at = policy.sticky_at;
+        (SimReader { data: Self::physical(&data, base), pos: base as u64, base: base as u64, mode: Mode::Gen { rng, policy, burst_left: 0 }, sticky_at, log: log.clone() }, log)
+    }
+    pub fn replay(data: Rc<Vec<u8>>, trace: Vec<RAct>, sticky_at: Option<usize>, prefix: usize) -> (SimReader, Rc<RefCell<ReaderLog>>) {
+        let log = Rc::new(RefCell::new(ReaderLog::default()));
+        (SimReader { data: Self::physical(&data, prefix), pos: prefix as u64, base: prefix as u64, mode: Mode::Replay { trace, idx: 0 }, sticky_at: sticky_at.map(|k| k + prefix), log: log.clone() }, log)
     }
 
     fn decide(&mut self, want: usize) -> RAct {
@@ -208,6 +233,7 @@ impl SimReader {
 impl Read for SimReader {
     fn read(&mut self, buf: &mut [u8]) -> io::Result<usize> {
         hook::src_event();
+        self.log.borrow_mut().started_at = self.base;
         if buf.is_empty() {
             return Ok(0);
         }
@@ -267,6 +293,10 @@ impl Seek for SimReader {
         if target < 0 {
             log.negative_seek = true;
             return Err(io::Error::new(io::ErrorKind::InvalidInput, "sim: seek before start"));
+        }
+        if (target as u64) < self.base {
+            // monitor: the parser left its own input and wandered into what preceded it in the device
+            log.negative_seek = true;
         }
         if (target as u64) < self.pos {
             log.backward_seeks += 1;
